@@ -174,7 +174,7 @@ def sig_of_diff(tver, diff):
     path, exp, got = diff
     import re
 
-    leaf = re.sub(r"\[\d+\]", "[]", path)
+    leaf = re.sub(r"\[\d+\]", "[]", path) or "top"
     # keep only the last code-field and what follows it
     parts = leaf.split(".")
     tail = [p for p in parts if p.startswith("co_")][-1:] or [leaf]
